@@ -434,6 +434,8 @@ Proof.
       rewrite (R_vm_add (Z.to_nat n) (mslot H n) (length (led s)) s2 (set_cl (remove_nth (last_cl s1) (cl s1)) s2)); auto.
       * rewrite <- Hc. rewrite abs_set_cl_remove. reflexivity.
       * unfold owned; sf. rewrite Hc. rewrite (remove_nth_perm _ _ (cl s1) Hl) at 1. apply Permutation_sym, Permutation_middle.
+  - (* OAdoptNull *)
+    destruct (okh H i && okty ty)%bool; [|auto]. cbn [fst snd]. split; auto. rf. reflexivity.
 Qed.
 
 Lemma run_refines s ops :
